@@ -21,6 +21,7 @@ import z3
 from . import smt
 from .gen import make_symgen
 from .interp import Interp
+from .fold import LoopObligation
 from .program import Program, scratch_dir
 from .values import Infeasible, MDict, Obj, OSeq, PProd, PyRaise, SBool, Unsupported
 
@@ -181,6 +182,11 @@ class Verifier:
         I = Interp(self.prog, ctx, contracts=self.contract_hooks(C.fn), intrinsics=self.intrinsics)
         I.loop_handler = self.loop_handler
         G = self.SymGen(I)
+        I.G = G
+        I.fkeys = {}
+        for lk, ls in (getattr(C.cls, "loops", None) or {}).items():
+            fk, ordinal = lk.rsplit("#", 1)
+            I.loop_specs[(fk, int(ordinal))] = dict(contract=C, inv=contract_fref(self.prog, C, ls["inv"]), temps=ls.get("temps", ()))
         built = C.build(G)
         args, kwargs, ghost = built.get("args", []), built.get("kwargs", {}), built.get("ghost", {})
         req = contract_fref(self.prog, C, "requires")
@@ -199,6 +205,11 @@ class Verifier:
             outcome = ("ok", result)
         except PyRaise as e:
             outcome = ("raise", e)
+        except LoopObligation as lo:
+            rec.update(kind=lo.kind, goal=lo.goal, detail=lo.detail)
+            rec["inlined"] = sorted(I.inlined)
+            rec["via_contract"] = sorted(I.via_contract)
+            return rec
         except CalleePreconditionFailed as e:
             rec.update(kind="callee-pre", goal=False, detail="precondition of %s not established at call site" % e.callee)
             rec["inlined"] = sorted(I.inlined)
